@@ -191,6 +191,10 @@ Errs(cat, files, e) ==
 \* calls that may both fail and succeed in the same state
 MayOkDespiteErrs(cat, e) ==
     \/ e.op = "DeleteById" /\ HasColl(cat, e.c) /\ e.id \notin Ids(cat, e.c)
+    \* Save of a valid document whose supplied _id is not stored yet: clover reports
+    \* ErrDocumentNotExist (it routes to ReplaceById); inserting it would satisfy every property too
+    \/ e.op = "Save" /\ HasColl(cat, e.c) /\ ~NeedsGen(e.docs[1]) /\ ValidDoc(e.docs[1])
+                     /\ DocId(e.docs[1]) \notin Ids(cat, e.c)
     \* a windowed bulk update may not select the offending document
     \/ e.op \in {"Update", "UpdateFunc"} /\ HasColl(cat, e.c) /\ Windowed(QueryOf(e))
 
@@ -220,7 +224,8 @@ NextCat(cat, files, e, h) ==
       [] e.op \in {"Insert", "InsertOne"} -> InsertNext(cat, e.c, e.docs, h.ids)
       [] e.op = "Save" ->
             IF NeedsGen(e.docs[1]) THEN InsertNext(cat, e.c, e.docs, h.ids)
-            ELSE PutColl(cat, e.c, [cat[e.c] EXCEPT !.docs[DocId(e.docs[1])] = e.docs[1]])
+            ELSE PutColl(cat, e.c, [cat[e.c] EXCEPT !.docs =
+                    [id \in DOMAIN @ \cup {DocId(e.docs[1])} |-> IF id = DocId(e.docs[1]) THEN e.docs[1] ELSE @[id]]])
       [] e.op = "ReplaceById" ->
             PutColl(cat, e.c, [cat[e.c] EXCEPT !.docs[e.id] = e.docs[1]])
       [] e.op = "UpdateById" ->
